@@ -294,3 +294,36 @@ def _first_of_type():
 
 
 _EVENT_MAKERS.update({'tagmsg': conv.ev_tagmsg})
+
+
+C07_CLAUSES = {'node-kind', 'children-keys', 'missing-fields', 'extra-fields', 'product-actual', 'sum-arity', 'leaf-actual',
+               'duplicate-node', 'length-bounds', 'child-not-standalone'}
+UNION_CFGS = {'quick': 'MC_Grammar_union_q.cfg', 'thorough': 'MC_Grammar_union_t.cfg'}
+
+
+@check('C07')
+def c07(tier: str) -> int:
+    return _multi_grammar('C07', tier, [
+        (SCALAR_CFGS, C07_CLAUSES, conv.ev_tree, {'extra_sp': 1}),
+        (CLS_CFGS, C07_CLAUSES, conv.ev_tree, {}),
+        (TAGGED_CFGS, C07_CLAUSES, conv.ev_tree, {}),
+        (UNION_CFGS, C07_CLAUSES, conv.ev_tree, {}),
+        (COND_CFGS, C07_CLAUSES, conv.ev_tree, {}),
+    ])
+
+
+C08_CLAUSES = {'render-raised', 'render-unstable', 'render-incomplete'}
+
+
+@check('C08')
+def c08(tier: str) -> int:
+    return _multi_grammar('C08', tier, [
+        (SCALAR_CFGS, C08_CLAUSES, conv.ev_render, {}),
+        (CLS_CFGS, C08_CLAUSES, conv.ev_render, {}),
+        (TAGGED_CFGS, C08_CLAUSES, conv.ev_render, {}),
+        (UNION_CFGS, C08_CLAUSES, conv.ev_render, {}),
+        (EXC_CFGS, C08_CLAUSES, conv.ev_render, {}),
+    ])
+
+
+_EVENT_MAKERS.update({'tree': conv.ev_tree, 'render': conv.ev_render})
